@@ -22,10 +22,18 @@ fn track_removals<C: ReactComponent>(mut cache: ResMut<ReactCache>)
 
 /// Tag for tracking despawns of entities with despawn reactors.
 #[derive(Component)]
-struct DespawnTracker
+pub(crate) struct DespawnTracker
 {
     parent   : Entity,
     notifier : Sender<Entity>,
+}
+
+impl DespawnTracker
+{
+    pub(crate) fn new(parent: Entity, notifier: Sender<Entity>) -> Self
+    {
+        Self{ parent, notifier }
+    }
 }
 
 impl Drop for DespawnTracker
@@ -112,7 +120,7 @@ fn register_despawn_reactor(
             if entity_mut.contains::<DespawnTracker>() { return; }
 
             // Insert a new despawn tracker.
-            entity_mut.insert(DespawnTracker{ parent: entity, notifier: cache.despawn_sender() });
+            entity_mut.insert(DespawnTracker::new(entity, cache.despawn_sender()));
         }
     );
 }
